@@ -1,6 +1,6 @@
 (* C05 — Choice among lookahead candidates follows the trailing-context rule.
    Property theorems only; proofs are in FindFromProofs.v / ModeProofs.v. *)
-From Scnr Require Import Base Automaton FindFrom FindFromProofs ModeProofs.
+From Scnr Require Import Base Regex Automaton FindFrom FindFromProofs ModeProofs RuleProofs Spec SpecRun SpecProofs FindFirstProofs SpecFirstProofs.
 
 (* For every class predicate, every mode automaton with lookahead automata whose accepting
    token types are listed in terminal_ids, and every haystack s: find_from never panics; it
@@ -34,6 +34,33 @@ Theorem C05_selection_generic :
   end.
 Proof. exact find_from_spec. Qed.
 Print Assumptions C05_selection_generic.
+
+(* Among the maximal candidates find_from reports the one that ends first, so its result is
+   uniquely determined ... *)
+Theorem C05_first_among_maximal :
+  forall tbl A la, (forall t rest, la t rest <> Panic) -> (forall q t, acc A q t = true -> In t (tids A)) ->
+  forall s t e k l, find_from tbl A la s = Ok (Some (t, e)) -> e = bpos s k -> Cand tbl A la s k l t ->
+  forall k' l' t', Cand tbl A la s k' l' t' -> le_c A (e, l, t) (bpos s k', l', t') -> e <= bpos s k'.
+Proof. intros tbl A la H1 H2. exact (find_from_first tbl A la H1 H2). Qed.
+Print Assumptions C05_first_among_maximal.
+
+(* ... and it IS the executable specification used as oracle by the correspondence check
+   (Spec.v best_cand on the pattern ASTs: maximal extent, then earliest pattern, then earliest
+   end), for every mode — with positive, negative and no lookaheads — whose automata accept the
+   pattern languages (per-automaton C02 certificates), with distinct token types in pattern order. *)
+Theorem C05_find_equals_specification :
+  forall (tbl leaf:N -> N -> bool) (M:mode_aut) (ps:list spat),
+  mode_ok M -> tids (main M) = map sp_tok ps -> NoDup (map sp_tok ps) ->
+  lang_equiv tbl leaf (main M) (rs_of ps) ->
+  (forall p, In p ps ->
+     match sp_la p with
+     | None => nassoc (sp_tok p) (las M) = None
+     | Some (pos, r) => exists D, nassoc (sp_tok p) (las M) = Some (pos, D) /\
+                          forall w, w <> [] -> ((exists t', accepts_tok tbl D w t') <-> mt leaf r w)
+     end) ->
+  forall s, find_mode tbl M s = Ok (best_cand leaf ps s).
+Proof. exact find_mode_eq_best_cand_la. Qed.
+Print Assumptions C05_find_equals_specification.
 
 (* the boolean well-formedness test used on dumped automata implies the hypothesis *)
 Theorem C05_mode_okb_sound : forall M, mode_okb M = true -> mode_ok M.
